@@ -31,7 +31,8 @@ pub struct Hist {
     /// 6 several ranges that fall back to a complete 200, 7 the same with a matching If-Range,
     /// 8 several small ranges (multipart) with a matching If-Range, 9 non-matching If-Range + range
     pub first: u8,
-    /// bitmask: 1 INM, 2 IMS, 4 IM, 8 IUS, 16 If-Range+Range
+    /// bitmask: 1 INM, 2 IMS, 4 IM, 8 IUS, 16 If-Range+Range, 32 a junk If-Modified-Since beside the
+    /// echoed INM (when IMS is not echoed), 64 a junk If-Unmodified-Since beside the echoed IM
     pub echo: u8,
 }
 
@@ -238,6 +239,14 @@ pub fn check(h: &Hist, acc: &mut Acc) -> Check {
             req2 = req2.with("if-range", etag.as_ref().unwrap()).with("range", "bytes=1-2");
             used |= 16;
         }
+        // A date header that is not an HTTP-date beside the echoed tag header that makes it ignored
+        // (RFC 7232 3.3 / 3.4): the cache-friendly answer must not change.
+        if h.echo & 32 != 0 && used & 1 != 0 && used & 2 == 0 {
+            req2 = req2.with("if-modified-since", "Sun, 06 Nov 1994 08:49:37 GMT; length=10");
+        }
+        if h.echo & 64 != 0 && used & 4 != 0 && used & 8 == 0 {
+            req2 = req2.with("if-unmodified-since", "1994-11-06T08:49:37Z");
+        }
         let Some(s2) = serve(&ent, &req2) else {
             acc.count("aborted-by-panic-in-serve(see C13)");
             return Ok(());
@@ -312,7 +321,7 @@ fn header_sets() -> Vec<Vec<(String, Bs)>> {
 }
 
 fn random_strategy() -> BoxedStrategy<Hist> {
-    (reqgen::etag_strategy(), reqgen::mtime_strategy(), reqgen::entity_headers_strategy(), 0u8..10, 0u8..32)
+    (reqgen::etag_strategy(), reqgen::mtime_strategy(), reqgen::entity_headers_strategy(), 0u8..10, 0u8..128)
         .prop_map(|(etag, mtime, headers, first, echo)| Hist {
             etag,
             mtime,
@@ -370,7 +379,11 @@ pub fn run_all(cx: &Cx) -> Acc {
     acc.merge(par_units(cx, "enumerated", &units, true, "etag x mtime x header sets x 10 first requests x 32 echo subsets", |cx, (etag, m), acc| {
         for headers in header_sets() {
             for first in 0..10 {
-                for echo in 0..32 {
+                for echo in 0..128u8 {
+                    // the junk-date bits only where they add a header
+                    if (echo & 32 != 0 && (echo & 1 == 0 || echo & 2 != 0)) || (echo & 64 != 0 && (echo & 4 == 0 || echo & 8 != 0)) {
+                        continue;
+                    }
                     let h = Hist {
                         etag: etag.clone(),
                         mtime: *m,
